@@ -15,7 +15,8 @@ CHECKS = {
              'history (to its natural end) of a reduced bid ladder; the model is bound to the real BiddingPhase '
              'by offering all 38 calls in every state of the full-size quotient model (TLC-exported canonical '
              'histories), by TLC-simulated and seeded full-size auctions with every illegal call offered at '
-             'every prefix, all validated event by event by the AuctionTrace specification.',
+             'every prefix, by pairs of auctions alive at the same time and by the repository\'s own tests run under a '
+             'recording plugin, all validated event by event by the AuctionTrace specification.',
         design_ref='DESIGN.md 3 C01',
         note=TRUST + 'the quotient walk assumes the object is a function of its fields.',
         technique='TLA+ model checking (TLC) + trace validation of the real BiddingPhase against Auction!Step'),
@@ -170,10 +171,14 @@ CHECKS = {
              'one thread stalled from each of many of its scheduling points for as long as any other thread can move, '
              'seeded random / uniform schedules, 1-2 boards, passed-out and played; deadlock detection is exact (no '
              'enabled thread), every session must end with all threads finished, End of session on all four '
-             'connections and a closed, parseable log (validated by TableTrace).',
+             'connections and a closed, parseable log (validated by TableTrace). Binding of the synchronisation skeleton: '
+             'the block sequence of real sessions is validated against the labels of Table.tla (TableSkelTrace, with negative '
+             'controls), TLC behaviours are replayed as schedules, the controlled primitives are self-checked against '
+             'CPython, and an inductive invariant of the reusable barrier is discharged by Apalache for any number of '
+             'generations.',
         design_ref='DESIGN.md 3 C09',
         note=TRUST + 'baton semantics as specified in PyThreading/Table; schedules are sampled on the real code, exhaustive on the model.',
-        technique='TLA+ model checking incl. liveness (TLC) + systematic schedule exploration of the real server (stall injection)'),
+        technique='TLA+ model checking incl. liveness (TLC, Apalache inductive invariant) + skeleton trace validation and systematic schedule exploration of the real server'),
     'C10': dict(
         category='model_checking',
         text='TLC: in Table.tla the lines sent on every connection are always a prefix of, and finally equal to, '
